@@ -107,6 +107,55 @@ def routing_probes(v):
     v.coverage['routing_probes'] = n
 
 
+def timeout_removal(v):
+    """"An IKE_SA that ends by retransmission timeout is removed together with its kernel SAs" - for every kind of request that can stay unanswered, the
+    DELETE that follows an IKE_SA rekey included (the old IKE_SA then leaves the table, its successor and the CHILD_SAs it inherited stay).  Time is the
+    virtual clock, the timers are those of the real main_loop."""
+    import world as wd
+    n = 0
+    for kind in ('dpd', 'newchild', 'rekchild', 'delchild', 'rekeyike', 'delike', 'delold'):
+        w = wd.World(seed=common.SEED, opts={'dpd': 100000, 'lifetime': 100000})
+        try:
+            w.establish('A')
+            sa = w.sas('A')[0]
+            if kind == 'dpd':
+                sa.start_dpd_at = w.now - 1
+                req = w.timer('A', sa, 'check_dead_peer_detection_timer')
+            elif kind == 'newchild':
+                req = w.acquire('A', sport=0, dport=0)
+            elif kind in ('rekchild', 'delchild'):
+                req = w.expire('A', bytes(sa.child_sas[0].inbound_spi), kind == 'delchild')
+            elif kind == 'delike':
+                sa.delete_ike_sa_at = w.now - 1
+                req = w.timer('A', sa, 'check_rekey_ike_sa_timer')
+            else:
+                sa.rekey_ike_sa_at = w.now - 1
+                req = w.timer('A', sa, 'check_rekey_ike_sa_timer')
+                sa.rekey_ike_sa_at = w.now + 1e9
+                if kind == 'delold':
+                    req = w.dispatch('A', w.dispatch('B', req, 'A'), 'B')          # the rekey completes; the DELETE of the old IKE_SA is what gets lost
+            if req is None:
+                raise common.MachineryError(f'no {kind} request was produced')
+            old_spi = bytes(sa.my_spi)
+            sent = 0
+            for _ in range(60):                  # the peer is gone: nothing is ever answered
+                w.now += 1.0
+                sent += sum(1 for k, s_, d in w.sweep('A') if d is not None and s_ is sa)
+            n += 1
+            listed = [(bytes(x.my_spi).hex(), x.state.name) for x in w.ctl['A'].ike_sas]
+            want = [] if kind != 'delold' else [x for x in listed if x[0] != old_spi.hex()]
+            kern = len(w.kernel['A'].sad)
+            if any(x[0] == old_spi.hex() for x in listed) or (kind == 'delold' and (len(listed) != 1 or listed[0][1] != 'ESTABLISHED' or kern == 0)) or (kind != 'delold' and kern):
+                v.violation(f'an unanswered {kind} request: after 60 s of timer passes ({sent} retransmissions) the table is {listed} and the kernel holds {kern} SAs '
+                            f'(the IKE_SA that sent it must be gone{", its successor and the inherited CHILD_SAs must stay" if kind == "delold" else " with its kernel SAs"})',
+                            {'kind': kind}, signature={'component': 'timeout-removal', 'kind': kind})
+        except wd.Escape as ex:
+            v.violation(f'timeout removal ({kind}): {ex}', {}, signature={'component': 'timeout-removal:escape'})
+        finally:
+            w.close()
+    v.coverage['timeout_removals'] = n
+
+
 def run(tier, replay=None):
     v = common.Verdict('C16', tier, 'model_checking')
     scen = ['estab', 'init', 'adv_init'] if tier == 'quick' else ['estab_loss', 'init3', 'init_ke', 'init_cookie', 'estab_rekey_ke', 'adv_init', 'adv']
@@ -116,6 +165,7 @@ def run(tier, replay=None):
     if tier == 'thorough':
         ikeprop.run_traces(v, 400, 120)            # binding B: the IKE_SA table of recorded random schedules
     routing_probes(v)
+    timeout_removal(v)
     status_query(v)
     v.assumptions += ['two endpoints; bounds of each scenario as listed in coverage.scenarios[*].constants',
                       'SPI tokens: the n-th 4/8-octet os.urandom draw of endpoint e is <<e,n>>']
